@@ -37,6 +37,7 @@ fn extreme_input(r: &mut Rng, thorough: bool) -> (Vec<u8>, &'static str) {
         3 => ((0..2000).map(|_| (r.next() & 0xff) as u8).collect(), "binary"),
         4 => (vec![0xff, 0xfe, b'{', b'"', 0xc3, b'"', b':', b'1', b'}', b'\n', 0xe2, 0x82, b'\n', 0xf0, 0x9f], "invalid-utf8"),
         5 => (b"{\"n\":1,\"x\":2}".to_vec(), "no-final-newline"),
+        6 if r.chance(50) => (b"{\"n\":9223372036854775808,\"x\":18446744073709551615,\"m\":18446744073709551616,\"arr\":[9223372036854775808,-9223372036854775809],\"o\":{\"p\":18446744073709551615,\"o\":{\"o\":12345678901234567890}},\"k\":\"a\",\"s\":\"18446744073709551615\"}\n{\"n\":1,\"x\":12345678901234567890,\"k\":\"a\"}\n{\"n\":-9223372036854775809,\"x\":1e19,\"k\":\"b\"}\n".to_vec(), "extreme-numbers"),
         6 => (b"{\"n\":9223372036854775807,\"x\":-9223372036854775808,\"m\":1.7976931348623157e308,\"k\":5e-324,\"s\":\"9223372036854775808\"}\n{\"n\":-9223372036854775808,\"x\":9223372036854775807,\"m\":-1.7976931348623157e308}\n".to_vec(), "extreme-numbers"),
         7 => {
             let depth = if thorough { 120 } else { 60 };
